@@ -101,6 +101,33 @@ contract(f"{TM}::TaskManager.register_task", "register_task.completion-of-an-old
               "it: add / pop / add of one cache object within one loop iteration must leave the second timeout cancellable")
 
 # ---------------------------------------------------------------------------------------------------------------------
+# the periodic runner: a cancellation delivered while a run is in progress ends the schedule (it is re-raised to asyncio, which marks
+# the task cancelled) - nothing runs and nothing is slept for afterwards.  Cancellation is the ONLY way shutdown stops a periodic task.
+from asyncio import CancelledError  # noqa: E402
+
+
+class CancellableRun:
+    """the periodic callable: each run may be hit by a cancellation (raised inside it at a suspension point)"""
+
+    def __init__(self):
+        self.cancelled = False
+
+    async def __call__(self, *args):
+        emit("run", *args)
+        if nondet_bool():
+            self.cancelled = True
+            raise CancelledError()
+
+
+contract(f"{TM}::interval_runner", "interval_runner.cancellation-ends-the-schedule",
+         vars={"T": EXPR("CancellableRun()"), "d": REAL, "iv": REAL, "F": EXPR(f"module_global('{TM}', 'interval_runner')")},
+         requires=["d >= 0", "iv > 0"], call="run_coro(F(d, iv, T))", raises=["CancelledError"],
+         loops={f"{TM}::interval_runner#0": {"invariants": ["not interval_task.cancelled"], "havoc": {}}},
+         on_effect={"run": ["not T.cancelled"], "await:sleep": ["not T.cancelled"]},
+         ensures=["False"], ensures_raise=["raised == 'CancelledError'", "T.cancelled"],
+         note="after a CancelledError has been raised into a run, interval_runner neither runs the task again nor sleeps: it propagates")
+
+# ---------------------------------------------------------------------------------------------------------------------
 # the request cache of an overlay (unload() awaits request_cache.shutdown()): the gate is closed BEFORE shutdown suspends for the first
 # time, so a datagram handled while the cancelled timeouts are being awaited can no longer register a request (whose timeout would fire
 # after unload() has returned).  The full state contract of shutdown is in C10.
